@@ -74,8 +74,11 @@ CLAIMED['C01'] = dict(
          'string-level model of utils.cpu_units/size_to_bytes/kilobytes/megabytes and loader.resources: nG = 1024n M, '
          'nT = 1024^2 n M, the B modifier = powers of 1000, every suffix in any letter case between blanks, n% = n, '
          'same quantity => same resource vector; scale table, multipliers and the parser assignment of resources() '
-         'regenerated from the source every run, premise C01U_tables_ok by vm_compute). Loader level '
-         '(reload_server) is decided by an oracle stage on the real Master.',
+         'regenerated from the source every run, premise C01U_tables_ok by vm_compute). Loader level: '
+         'C01_reload_keeps_only_identical (reload_server keeps the running Server object only for an identical '
+         'declaration - exact capacity, label, traits, parent; model Master/SrvState.v same_decl, whose decision drives '
+         'the correspondence stage shared with C08) plus an oracle stage on the real Master (views, sums, and the '
+         'object\'s capacity against the server\'s declared record).',
     note=SCHED_NOTE + ' Hypotheses of C01_invariant (wf_ops): a new server has a fresh name, non-negative capacity of '
          'the cell\'s dimension and is not named by a stale instance; a new instance is unplaced with a non-negative '
          'demand of that dimension.',
